@@ -210,6 +210,36 @@ def run(ctx: common.Ctx):
         elif norm(o) != m:
             ctx.count("nary-differs-from-left-fold-outside-lattice")
     ctx.extra["triples_inside_lattice"] = n_assoc
+    # n-ary promotion: independent of the operand order (commutativity of promotion), and NumPy's n-ary rule for every
+    # triple, mixed signed / unsigned / float included (NumPy's n-ary rule is not the left fold there)
+    import numpy as _np
+    t_out = {t: norm(o) for t, o in zip(triples, triple_out)}
+    for (a, b, c), o in t_out.items():
+        if (a, b, c) != tuple(sorted((a, b, c))):
+            continue
+        perms = set(itertools.permutations((a, b, c)))
+        outs = {t_out[q] for q in perms}
+        if len(outs) > 1:
+            ctx.violation(f"result_type/{a},{b},{c}/nary-order-dependent",
+                          f"result_type over the permutations of ({a},{b},{c}) gives {sorted(outs)}",
+                          {"triple": [a, b, c], "observed": {",".join(q): t_out[q] for q in sorted(perms)}})
+        cs = [core_of(x) for x in (a, b, c)]
+        nstr = sum(x == "utf8" for x in cs)
+        if nstr == 3:
+            want = "utf8"
+        elif nstr:
+            want = "TypeError"
+        else:
+            want = str(_np.result_type(*[_np.dtype(x) for x in cs]))
+        if want != "TypeError" and any(x != core_of(x) for x in (a, b, c)):
+            want = "n" + want
+        ctx.count("result_type:triple-vs-numpy")
+        for q in perms:
+            if t_out[q] != want:
+                ctx.violation(f"result_type/{a},{b},{c}/nary-differs-from-numpy",
+                              f"result_type({','.join(q)})={t_out[q]}, NumPy's n-ary promotion (nullable closure applied) gives {want}",
+                              {"triple": list(q), "observed": t_out[q], "expected": want})
+                break
     for (d, k, first), o, m in zip(scal_jobs, scal_out, m_scal):
         ctx.case(("promote-scalar", d, k, first), True)
         ctx.count("promote:scalar")
